@@ -3,7 +3,7 @@ import Log4rsModel.Rolling.Spec
 /-
 C04 driver. Case kinds
 
-  seq  <mode a|t> <pre: - | hex bytes> <ops>          ops  = `,`-joined: `r` (restart) | record
+  seq  <mode a|t> <pre: - | hex bytes> <ops>          ops  = `,`-joined, see `decOp`: restart, build, foreign append, [k>][e<n>!]record
   conc <mode a|t> <pre> <amplifier 0|1|2> <threads>   threads = `|`-joined, each a `,`-joined record list
 
 record = `b<id>:<n1>+<n2>+…`  scripted encoder: slices of these sizes (`b<id>:` = no slice at all),
@@ -79,8 +79,39 @@ def decRec (s : String) : Option RecSpec :=
 def decMode (s : String) : Option OpenMode :=
   if s = "a" then some .append else if s = "t" then some .truncate else none
 
-def decOp (s : String) : Option FileAppender.Op :=
-  if s = "r" then some .restart else (decRec s).map (fun r => .append r.chunks)
+/-- `e<n>!<record>`: the scripted encoder writes the first `n` slices, then returns `Err` -/
+def decFailRec (s : String) : Option (RecSpec × Option Nat) :=
+  match s.toList with
+  | 'e' :: rest =>
+    match splitOnChar '!' (String.ofList rest) with
+    | [n, r] =>
+      match decNat n, decRec r with
+      | some n, some r => some (r, some n)
+      | _, _ => none
+    | _ => none
+  | _ => (decRec s).map (fun r => (r, none))
+
+/-- operations of a sequential history:
+  `r` / `r<k>` restart appender 0 / k;  `n` build one more appender on the path;
+  `x<id>:<size>` a foreign `O_APPEND` handle appends `genBytes id size`;
+  `[<k>>][e<n>!]record` appender `k` (default 0) handles the record, the encoder failing after `n` slices -/
+def decOp (s : String) : Option MOp :=
+  if s = "r" then some (.restart 0) else if s = "n" then some .build else
+  match s.toList with
+  | 'r' :: ds => ((String.ofList ds).toNat?).map MOp.restart
+  | 'x' :: rest =>
+    match splitOnChar ':' (String.ofList rest) with
+    | [i, n] => match decNat i, decNat n with
+      | some i, some n => some (.foreign (genBytes i n))
+      | _, _ => none
+    | _ => none
+  | _ =>
+    match splitOnChar '>' s with
+    | [k, body] => match decNat k, decFailRec body with
+      | some k, some (r, f) => some (.append k r.chunks f)
+      | _, _ => none
+    | [body] => (decFailRec body).map (fun (r, f) => .append 0 r.chunks f)
+    | _ => none
 
 /-- which branches of the BufWriter rule a history exercises -/
 def chunkTags (w : BufFile) : List Bytes → List String
@@ -95,13 +126,21 @@ def chunkTags (w : BufFile) : List Bytes → List String
       (if c.length > spare ∧ ¬ w.buf.isEmpty then ["spill"] else [])
     t ++ chunkTags (w.writeAll c) cs
 
-def opTags (m : OpenMode) (w : BufFile) : List FileAppender.Op → List String
+def opTags (m : OpenMode) (s : Handles) : List MOp → List String
   | [] => []
-  | .append r :: ops =>
+  | .append k r f :: ops =>
+    let written := match f with | none => r | some n => r.take n
     (if r.isEmpty then ["no-slice"] else if (recBytes r).isEmpty then ["empty-record"] else []) ++
-    (if r.length > 1 then ["multi-chunk"] else []) ++ chunkTags w r ++
-    opTags m (FileAppender.applyOp m w (.append r)) ops
-  | .restart :: ops => "restart" :: opTags m (FileAppender.applyOp m w .restart) ops
+    (if r.length > 1 then ["multi-chunk"] else []) ++ chunkTags (s.view k) written ++
+    (if k != 0 then ["second-appender"] else []) ++
+    (match f with
+     | none => if !(s.view k).buf.isEmpty then ["flushes-torn-prefix"] else []
+     | some _ => if (MOp.append k r f).torn then ["encoder-error", "encoder-error-torn"] else ["encoder-error"]) ++
+    opTags m (s.applyOp m (.append k r f)) ops
+  | .restart k :: ops =>
+    ("restart" :: (if !(s.view k).buf.isEmpty then ["flushes-torn-prefix"] else [])) ++ opTags m (s.applyOp m (.restart k)) ops
+  | .foreign x :: ops => "foreign-append" :: opTags m (s.applyOp m (.foreign x)) ops
+  | .build :: ops => "multi-handle" :: opTags m (s.applyOp m .build) ops
 
 def dedup (xs : List String) : List String := xs.foldl (fun acc x => if acc.contains x then acc else acc ++ [x]) []
 
@@ -110,20 +149,36 @@ def firstDiff : Nat → List String → List String → Option Nat
   | k, a :: as, b :: bs => if a = b then firstDiff (k + 1) as bs else some k
   | k, _, _ => some k
 
+def opKind : MOp → String
+  | .append _ _ none => "append"
+  | .append _ _ (some _) => "failed-append"
+  | .foreign _ => "foreign"
+  | .build => "build"
+  | .restart _ => "restart"
+
 def handleSeq (mS preS opsS : String) (obs : List String) : Answer :=
   match decMode mS, decOpt decBytesBig preS, mapM? decOp (decList ',' opsS), obs with
   | some m, some pre, some ops, [implObs] =>
-    let w0 := FileAppender.build m pre
-    let model := encList "," ((FileAppender.trace m w0 ops).map hex)
-    let expect := (Spec.expectedTrace m pre ops).map hex
+    if !validOps 1 ops then badCase "appender index" else
+    if m = .truncate ∧ ops.any MOp.multi then badCase "several handles are modelled in append mode only" else
+    let s0 := Handles.init m pre
+    let modelL := (Handles.trace m s0 ops).map hex
+    let model := encList "," modelL
+    let expect := (Spec.expectedTraceM m pre ops).map hex
     let got := decList ',' implObs
     let modeName := if m = .append then "append" else "truncate"
     let spec := match firstDiff 0 expect got with
       | none => "ok"
       | some k =>
-        let kind := match ops[k]? with | some .restart => "restart" | some (.append _) => "append" | none => "arity"
-        "FAIL:file after op " ++ toString k ++ " is not initial ++ whole records;sig=C04/seq-" ++ modeName ++ "-" ++ kind
-    let tags := dedup ([modeName, if pre.isSome then "pre-existing" else "fresh"] ++ opTags m w0 ops)
+        -- the known defect: the code does exactly what the model says, and what differs from the
+        -- statement is the torn prefix of a failed encode that has reached the file
+        let tornBefore := (ops.take (k + 1)).any MOp.torn
+        if tornBefore ∧ got[k]? = modelL[k]? ∧ got[k]?.isSome then
+          "FAIL:file after op " ++ toString k ++ " contains the torn prefix of a record whose encoder failed;sig=C04/seq-encoder-error-torn"
+        else
+          let kind := match ops[k]? with | some op => opKind op | none => "arity"
+          "FAIL:file after op " ++ toString k ++ " is not initial ++ whole acknowledged records and foreign appends in call order;sig=C04/seq-" ++ modeName ++ "-" ++ kind
+    let tags := dedup ([modeName, if pre.isSome then "pre-existing" else "fresh"] ++ opTags m s0 ops)
     { model, spec, tags := if ops.isEmpty then "trivial" :: tags else "seq" :: tags }
   | _, _, _, _ => badCase "seq"
 
